@@ -116,3 +116,116 @@ Proof.
   - cbn [firstn skipn]. rewrite (Hr c E). rewrite IH. cbn [flat_map]. rewrite E. reflexivity.
   - rewrite IH. cbn [flat_map]. rewrite E. reflexivity.
 Qed.
+
+(* ---- the backtracking matcher never runs out of steps: for EVERY pattern and input, fuel above
+   (size of the pattern + length of the input) suffices.  A repetition only iterates again after its
+   body consumed something, so the input shrinks along every chain of nested calls. *)
+Theorem bt_no_fuel : forall fuel r s pos cs k,
+  (rsize r + length s < fuel)%nat ->
+  (forall s1 p1 c1, (length s1 <= length s)%nat -> (p1 + length s1 = pos + length s)%nat -> k s1 p1 c1 <> BFuel) ->
+  bt fuel r s pos cs k <> BFuel.
+Proof.
+  induction fuel as [|f IH]; intros r s pos cs k Hf Hk; [lia|].
+  destruct r as [| |neg rs|a b|a b|a|i a]; cbn [bt rsize] in *.
+  - discriminate.
+  - apply Hk; lia.
+  - destruct s as [|c s']; [discriminate|]. destruct (chr_ok neg rs c); [|discriminate].
+    apply Hk; cbn [length]; lia.
+  - apply IH; [lia|]. intros s1 p1 c1 H1 H2. apply IH; [lia|]. intros s2 p2 c2 H3 H4. apply Hk; lia.
+  - destruct (bt f a s pos cs k) eqn:E; try discriminate.
+    + exfalso. revert E. apply IH; [lia|assumption].
+    + apply IH; [lia|assumption].
+  - destruct (bt f a s pos cs _) eqn:E; try discriminate.
+    + exfalso. revert E. apply IH; [lia|]. intros s1 p1 c1 H1 H2.
+      destruct (Nat.eqb p1 pos) eqn:Ep; [discriminate|]. apply Nat.eqb_neq in Ep.
+      apply IH; [cbn [rsize]; lia|]. intros s2 p2 c2 H3 H4. apply Hk; lia.
+    + apply Hk; lia.
+  - apply IH; [lia|]. intros s1 p1 c1 H1 H2. apply Hk; assumption.
+Qed.
+
+Lemma bt_fuel_enough r s : (rsize r + length s < bt_fuel r s)%nat.
+Proof. unfold bt_fuel. nia. Qed.
+
+(* pattern.match(s) always answers *)
+Corollary re_match_total r e s : re_match r e s <> BFuel.
+Proof.
+  unfold re_match. apply bt_no_fuel; [apply bt_fuel_enough|].
+  intros s1 p1 c1 _ _ H. destruct e; cbv beta iota in H.
+  - discriminate H.
+  - repeat match type of H with context [match ?x with _ => _ end] => destruct x end; discriminate H.
+  - destruct s1; discriminate H.
+Qed.
+
+(* ---- re.sub always answers (any pattern, any replacement function) *)
+Lemma re_sub_loop_total r repl : forall f s, (length s < f)%nat -> re_sub_loop f r repl s <> None.
+Proof.
+  induction f as [|f IH]; intros s Hf; [lia|].
+  destruct s as [|c s']; [discriminate|]. rewrite re_sub_loop_cons. cbv zeta.
+  assert (T : bt (bt_fuel r (c :: s')) r (c :: s') 0 [] (fun _ p cs => BYes p cs) <> BFuel)
+    by (apply bt_no_fuel; [apply bt_fuel_enough|discriminate]).
+  destruct (bt _ r (c :: s') 0 [] _) as [| |[|e] cs]; [congruence| | |].
+  - specialize (IH s' ltac:(cbn [length] in Hf; lia)). destruct (re_sub_loop f r repl s') as [[x|]|]; congruence.
+  - specialize (IH s' ltac:(cbn [length] in Hf; lia)). destruct (re_sub_loop f r repl s') as [[x|]|]; congruence.
+  - destruct (repl _); [|discriminate].
+    assert (Hl : (length (skipn (S e) (c :: s')) < f)%nat) by (rewrite skipn_length; cbn [length] in *; lia).
+    specialize (IH _ Hl). destruct (re_sub_loop f r repl _) as [[x|]|]; congruence.
+Qed.
+
+Corollary re_sub_total r repl s : re_sub r repl s <> None.
+Proof. unfold re_sub. apply re_sub_loop_total. lia. Qed.
+
+(* ---- groups that lie on every path of a pattern are captured by every successful match *)
+Fixpoint must_capture (i : nat) (r : rx) : bool :=
+  match r with
+  | Cat a b => must_capture i a || must_capture i b
+  | Alt a b => must_capture i a && must_capture i b
+  | Group j a => Nat.eqb i j || must_capture i a
+  | _ => false
+  end.
+
+Definition has_cap (i : nat) (cs : caps) : Prop := cap_lookup i cs <> None.
+
+Lemma has_cap_cons i j se cs : has_cap i cs -> has_cap i ((j, se) :: cs).
+Proof. unfold has_cap. cbn [cap_lookup]. destruct (Nat.eqb i j); [discriminate|auto]. Qed.
+
+Lemma bt_captures : forall fuel r s pos cs k e cf i,
+  bt fuel r s pos cs k = BYes e cf ->
+  exists s1 p1 c1, k s1 p1 c1 = BYes e cf /\ (has_cap i cs -> has_cap i c1) /\ (must_capture i r = true -> has_cap i c1).
+Proof.
+  induction fuel as [|f IH]; intros r s pos cs k e cf i H; [discriminate|].
+  destruct r as [| |neg rs|a b|a b|a|j a]; cbn [bt must_capture] in *.
+  - discriminate.
+  - exists s, pos, cs. repeat split; auto. discriminate.
+  - destruct s as [|c s']; [discriminate|]. destruct (chr_ok neg rs c); [|discriminate].
+    exists s', (S pos), cs. repeat split; auto. discriminate.
+  - apply (IH a _ _ _ _ _ _ i) in H. destruct H as (s1 & p1 & c1 & H & K1 & M1).
+    apply (IH b _ _ _ _ _ _ i) in H. destruct H as (s2 & p2 & c2 & H & K2 & M2).
+    exists s2, p2, c2. repeat split; auto. intros M. apply orb_true_iff in M as [M|M]; auto.
+  - destruct (bt f a s pos cs k) as [| |e0 c0] eqn:E; try discriminate.
+    + apply (IH b _ _ _ _ _ _ i) in H. destruct H as (s1 & p1 & c1 & H & K1 & M1).
+      exists s1, p1, c1. repeat split; auto. intros M. apply andb_true_iff in M as [_ M]. auto.
+    + injection H as <- <-. apply (IH a _ _ _ _ _ _ i) in E. destruct E as (s1 & p1 & c1 & E & K1 & M1).
+      exists s1, p1, c1. repeat split; auto. intros M. apply andb_true_iff in M as [M _]. auto.
+  - destruct (bt f a s pos cs _) as [| |e0 c0] eqn:E; try discriminate.
+    + exists s, pos, cs. repeat split; auto. discriminate.
+    + injection H as <- <-. apply (IH a _ _ _ _ _ _ i) in E. destruct E as (s1 & p1 & c1 & E & K1 & _).
+      destruct (Nat.eqb p1 pos); [discriminate|].
+      apply (IH (Star a) _ _ _ _ _ _ i) in E. destruct E as (s2 & p2 & c2 & E & K2 & _).
+      exists s2, p2, c2. repeat split; auto. discriminate.
+  - apply (IH a _ _ _ _ _ _ i) in H. destruct H as (s1 & p1 & c1 & H & K1 & M1).
+    exists s1, p1, ((j, (pos, p1)) :: c1). split; [exact H|]. split.
+    + intros Hc. apply has_cap_cons. auto.
+    + intros M. apply orb_true_iff in M as [M|M].
+      * unfold has_cap. cbn [cap_lookup]. rewrite M. discriminate.
+      * apply has_cap_cons. auto.
+Qed.
+
+Corollary re_match_captures r e s p cs i :
+  re_match r e s = BYes p cs -> must_capture i r = true -> exists se, cap_lookup i cs = Some se.
+Proof.
+  unfold re_match. intros H M. apply (bt_captures _ _ _ _ _ _ _ _ i) in H. destruct H as (s1 & p1 & c1 & H & _ & Hm).
+  assert (E : c1 = cs).
+  { destruct e; cbv beta iota in H; [congruence| |destruct s1; congruence].
+    repeat match type of H with context [match ?x with _ => _ end] => destruct x end; congruence. }
+  subst. specialize (Hm M). unfold has_cap in Hm. destruct (cap_lookup i cs); [eauto|congruence].
+Qed.
